@@ -14,7 +14,8 @@
      4. stl/datafile.py DataFile.__init__ / process_tti_block, stl/reader.py loop — [stl_run]
 
    State of the code transcribed: repository commit cde187e plus the laboratory commits 654d3f5 (WebVTT end tags), cb365b8
-   (WebVTT percentage), 02aa1c0 (SRT <font color>), 7e042d3 (STL row count).
+   (WebVTT percentage), 02aa1c0 (SRT <font color>), 7e042d3 (STL row count), and repository commit 4d63802 (SRT hour fields of
+   two or more digits; int() of a field beyond the interpreter's digit limit is a ValueError).
 
    No proofs here (Proofs/C18/*.v).  Character classes come from Gen/GuardTables.v (regenerated from CPython). *)
 From TT Require Import Base.Prelude Model.Outcome Gen.GuardTables.
@@ -70,13 +71,16 @@ Definition eat_d2 (s : text) : option text :=
   match s with a :: b :: r => if ascii_digit a && ascii_digit b then Some r else None | _ => None end.
 Definition eat_d3 (s : text) : option text :=
   match s with a :: b :: c :: r => if ascii_digit a && ascii_digit b && ascii_digit c then Some r else None | _ => None end.
-(* [0-9]{2,3} followed by something that is not a digit when only two were taken: greedy, and the backtrack to two
-   digits can never help because the pattern continues with ':' *)
-Definition eat_d23 (s : text) : option text :=
-  match eat_d2 s with
-  | None => None
-  | Some r => match r with d :: r' => if ascii_digit d then Some r' else Some r | [] => Some r end
+(* [0-9]{2,} : the whole run of digits (greedy; giving digits back can never help because the pattern continues with ':'),
+   at least two; the number of digits taken is returned with the rest (repository commit 4d63802: both hour fields of
+   _TIMECODE_RE are [0-9]{2,}, no longer [0-9]{2,3}) *)
+Fixpoint span_digits (n : Z) (s : text) : Z * text :=
+  match s with
+  | c :: r => if ascii_digit c then span_digits (n + 1) r else (n, s)
+  | [] => (n, [])
   end.
+Definition eat_d2p (s : text) : option (Z * text) :=
+  let (n, r) := span_digits 0 s in if 2 <=? n then Some (n, r) else None.
 Fixpoint drop_while (f : Z -> bool) (s : text) : text :=
   match s with [] => [] | c :: r => if f c then drop_while f r else s end.
 Definition eat_spaces1 (s : text) : option text :=
@@ -84,18 +88,41 @@ Definition eat_spaces1 (s : text) : option text :=
 Definition eat_arrow (s : text) : option text := eat 45 s >>= eat 45 >>= eat 62.
 
 (* ------------------------------------------------------------------------------------------------ 1. SRT reader *)
-(* _TIMECODE_RE = D{2,3}:DD:DD,DDD \s+ --> \s+ D{2,3}:DD:DD,DDD  (D = [0-9]) *)
-Definition srt_ts (s : text) : option text :=
-  eat_d23 s >>= eat 58 >>= eat_d2 >>= eat 58 >>= eat_d2 >>= eat 44 >>= eat_d3.
-Definition srt_tc_at (s : text) : bool :=
-  match srt_ts s >>= eat_spaces1 >>= eat_arrow >>= eat_spaces1 >>= srt_ts with Some _ => true | None => false end.
-Fixpoint srt_tc_search (s : text) : bool :=                   (* _TIMECODE_RE.search(line) is not None *)
-  srt_tc_at s || match s with [] => false | _ :: r => srt_tc_search r end.
+(* _TIMECODE_RE = D{2,}:DD:DD,DDD \s+ --> \s+ D{2,}:DD:DD,DDD  (D = [0-9]).  [srt_ts] matches one time code at the start of s
+   and returns the number of digits of its hour field with the rest *)
+Definition srt_ts (s : text) : option (Z * text) :=
+  match eat_d2p s with
+  | None => None
+  | Some (n, r) => match eat 58 r >>= eat_d2 >>= eat 58 >>= eat_d2 >>= eat 44 >>= eat_d3 with Some r' => Some (n, r') | None => None end
+  end.
+(* _TIMECODE_RE.match at one position: the digit counts of begin_h and end_h.  At one position the pattern has at most one
+   match (every quantifier is followed by a character outside its class) *)
+Definition srt_tc_at (s : text) : option (Z * Z) :=
+  match srt_ts s with
+  | None => None
+  | Some (nb, r) => match eat_spaces1 r >>= eat_arrow >>= eat_spaces1 with
+                    | None => None
+                    | Some r' => match srt_ts r' with Some (ne, _) => Some (nb, ne) | None => None end
+                    end
+  end.
+(* _TIMECODE_RE.search(line): the leftmost match *)
+Fixpoint srt_tc_search (s : text) : option (Z * Z) :=
+  match srt_tc_at s with
+  | Some m => Some m
+  | None => match s with [] => None | _ :: r => srt_tc_search r end
+  end.
+(* int(m.group('begin_h')) / int(m.group('end_h')) raise ValueError when the field has more than sys.get_int_max_str_digits()
+   digits ("Exceeds the limit (4300 digits) for integer string conversion"); the other six fields have two or three digits *)
+Definition srt_hours_too_long (m : Z * Z) : bool := (int_max_str_digits <? fst m) || (int_max_str_digits <? snd m).
 
 (* what the machine looks at in a line *)
-Record srt_view := { sv_blank : bool; sv_counter : bool; sv_tc : bool }.
+(* sv_tc: _TIMECODE_RE.search(line) is not None; sv_tc_long: ... and int() of one of its hour fields raises ValueError *)
+Record srt_view := { sv_blank : bool; sv_counter : bool; sv_tc : bool; sv_tc_long : bool }.
 Definition srt_classify (l : text) : srt_view :=
-  {| sv_blank := is_blank l; sv_counter := existsb re_digit l (* _COUNTER_RE.search *); sv_tc := srt_tc_search l |}.
+  let m := srt_tc_search l in
+  {| sv_blank := is_blank l; sv_counter := existsb re_digit l (* _COUNTER_RE.search *);
+     sv_tc := match m with Some _ => true | None => false end;
+     sv_tc_long := match m with Some h => srt_hours_too_long h | None => false end |}.
 
 Inductive srt_state := S_COUNTER | S_TC | S_TEXT | S_TEXT_MORE.
 
@@ -151,6 +178,7 @@ Definition srt_step (v : srt_vars) (item : option srt_view) : srt_vars + outcome
       match item with
       | None => inr OkDoc
       | Some l => if negb (sv_tc l) then inr OkNone
+                  else if sv_tc_long l then inr (FormatError ValueErr)   (* current_p.set_begin(int(m.group('begin_h')) * 3600 + ...) *)
                   else inl {| s_state := S_TEXT; s_p := Some false (* current_p = model.P(doc) *); s_text_bound := s_text_bound v;
                               s_oracle := s_oracle v; s_calls := s_calls v |}
       end
